@@ -18,7 +18,7 @@ template<class T> static glm::qua<T> mk(LD w, LD x, LD y, LD z) { LD n = sqrtl(w
 static Q4 ref_slerp(Q4 x, Q4 y, LD t, int k, bool shortest) { LD c = qdot(x, y); if (shortest && c < 0) { y = Q4{-y.w, -y.x, -y.y, -y.z}; c = -c; } if (c > 1) c = 1; if (c < -1) c = -1; LD th = acosl(c); LD s = sinl(th);
 	if (s < 1e-12L) { Q4 r{x.w + t * (y.w - x.w), x.x + t * (y.x - x.x), x.y + t * (y.y - x.y), x.z + t * (y.z - x.z)}; return r; }
 	LD phi = th + k * 3.14159265358979323846264338327950288L; LD a = sinl(th - t * phi) / s, b = sinl(t * phi) / s; return Q4{a * x.w + b * y.w, a * x.x + b * y.x, a * x.y + b * y.y, a * x.z + b * y.z}; }
-static LD qdiff(Q4 a, Q4 b) { return std::max(std::max(fabsl(a.w - b.w), fabsl(a.x - b.x)), std::max(fabsl(a.y - b.y), fabsl(a.z - b.z))); }
+static LD qdiff(Q4 a, Q4 b) { return nmax(nmax(fabsl(a.w - b.w), fabsl(a.x - b.x)), nmax(fabsl(a.y - b.y), fabsl(a.z - b.z)));   /* keeps a NaN component */ }
 template<class T> static void run(Rng& g, int n) {
 	std::string ty = std::string("_") + tn<T>(); LD eps = std::numeric_limits<T>::epsilon();
 	for (int it = 0; it < n; ++it) {
